@@ -420,6 +420,17 @@ func parseFuncDirective(fc *FuncContract, word, rest, file string, line int) {
 		if strings.TrimSpace(rest) == "causal-by-ensures" {
 			fc.CausalByEnsures = true
 		}
+	case "atexit":
+		// atexit instantiate LABEL(args): a lemma instance over results and locals, assumed at the return
+		r := strings.TrimSpace(rest)
+		if !strings.HasPrefix(r, "instantiate ") {
+			fatalf("%s:%d: atexit supports only `instantiate`", file, line)
+		}
+		inst := strings.TrimSpace(strings.TrimPrefix(r, "instantiate "))
+		fc.Clauses = append(fc.Clauses, &Clause{Kind: "exitinst", Src: inst, Loop: -1, File: file, Line: line})
+		if i := strings.Index(inst, "("); i > 0 {
+			fc.Instantiate2 = append(fc.Instantiate2, strings.TrimSpace(inst[:i]))
+		}
 	case "instantiate":
 		fc.Instantiate = append(fc.Instantiate, strings.TrimSpace(rest))
 	case "states":
